@@ -84,7 +84,7 @@ def gen_hierarchy(rng, depth):
             pp = dict(rng.choice([p for p in specs[names[k - 1]]["own"] if not p["required"]]))
             pp["default"], pp["required"] = repr(val_for(pp["ann"])), False
             own = [p for p in own if p["name"] != pp["name"]] + [pp]
-        kind = rng.choice(["super", "super", "super-hard", "noinit", "func", "method", "attr", "pop", "get", "cond", "cond-class", "cond-param", "nokwargs"]) if k > 0 else rng.choice(["root", "root", "func", "pop", "get", "attr", "cond"])
+        kind = rng.choice(["super", "super", "super-hard", "noinit", "func", "method", "attr", "pop", "get", "cond", "cond-class", "cond-param", "nokwargs", "pop-condfunc"]) if k > 0 else rng.choice(["root", "root", "func", "pop", "get", "attr", "cond", "pop-condfunc"])
         if k == depth - 1 and kind == "noinit" and rng.random() < 0.5:
             kind = "super"
         if pending and kind not in ("super", "super-hard", "pop", "noinit"):
@@ -157,6 +157,21 @@ def gen_hierarchy(rng, depth):
             fa, fb = new_func(f"{k}ca"), new_func(f"{k}cb")
             flag = rng.choice(["FLAG_ON", "FLAG_OFF"])
             body.append(f"if {flag}:\n            self.r = {fa}(**kwargs)\n        else:\n            self.r = {fb}(**kwargs)")
+            sp["forwards"].append(("func", fa if flag == "FLAG_ON" else fb, {}))
+            if k > 0:
+                body.append("super().__init__()")
+        elif kind == "pop-condfunc":
+            # **kwargs used twice: a kwargs.pop, then a call of a function that itself forwards them conditionally, so the
+            # first parameter resolved for that call is a conditional one
+            pname = f"popped{k}"
+            const = rng.choice(["3", "'pv'"])
+            fa, fb = new_func(f"{k}pa"), new_func(f"{k}pb")
+            flag = rng.choice(["FLAG_ON", "FLAG_OFF"])
+            helper = f"cond_helper_{k}"
+            pre += f"def {helper}(**kwargs):\n    if {flag}:\n        return {fa}(**kwargs)\n    else:\n        return {fb}(**kwargs)\n"
+            body.append(f"self.v_{pname} = kwargs.pop(\"{pname}\", {const})")
+            body.append(f"self.r = {helper}(**kwargs)")
+            sp["forwards"].append(("pop", pname, const))
             sp["forwards"].append(("func", fa if flag == "FLAG_ON" else fb, {}))
             if k > 0:
                 body.append("super().__init__()")
